@@ -170,7 +170,8 @@ static void exec_service(const ccase *c) {
 	KSI_AsyncService *as = NULL;
 	KSI_AsyncHandle *ah = NULL, *out = NULL;
 	KSI_Integer *t0 = NULL;
-	const char *xid = c->x ? EXPL_ID : NULL, *xkey = c->x ? EXPL_KEY : NULL;
+	/* x: 0 no explicit credentials, 1 both, 2 login id only, 3 key only */
+	const char *xid = (c->x == 1 || c->x == 2) ? EXPL_ID : NULL, *xkey = (c->x == 1 || c->x == 3) ? EXPL_KEY : NULL;
 	unsigned char imp[RH_MAX_IMPRINT];
 	size_t il = ref_fake_imprint(RH_SHA256, 20, imp);
 	int res, i;
@@ -351,7 +352,7 @@ static void oracle(const ccase *c, expect *e) {
 				e->transport = 'f';   /* SILENT: which path is opened, which credentials are used */
 				/* SILENT: a file URI without explicit credentials (no key to authenticate the request with;
 				 * the role of user-info in a non-ksi URI is not defined by the statement) */
-				if (!c->x) { e->must_accept = 0; e->silent_why = "no-credentials"; }
+				if (c->x != 1) { e->must_accept = 0; e->silent_why = "no-credentials"; }
 			}
 			break;
 		default:
@@ -362,12 +363,16 @@ static void oracle(const ccase *c, expect *e) {
 	if (e->refuse) return;
 	if (cls == CL_HTTP || cls == CL_TCP) {
 		/* embedded user:key are the KSI login id and HMAC key, explicit arguments take precedence */
-		if (c->x) { e->user = EXPL_ID; e->key = EXPL_KEY; }
-		else if (c->u) { e->user = UI_USER[c->u]; e->key = UI_KEY[c->u]; }
-		else { e->must_accept = 0; e->silent_why = "no-credentials"; } /* SILENT: no credentials at all */
+		if (c->x == 1) { e->user = EXPL_ID; e->key = EXPL_KEY; }
+		else if (c->u) {
+			/* each explicit argument that is given replaces the embedded one; the other one is taken from the URI */
+			e->user = c->x == 2 ? EXPL_ID : UI_USER[c->u];
+			e->key = c->x == 3 ? EXPL_KEY : UI_KEY[c->u];
+		}
+		else { e->must_accept = 0; e->silent_why = "no-credentials"; } /* SILENT: no (or only half of the) credentials */
 	} else if (cls == CL_OTHER) {
 		/* the URI is passed on unchanged; only the explicit arguments are KSI credentials */
-		if (c->x) {
+		if (c->x == 1) {
 			e->user = EXPL_ID; e->key = EXPL_KEY;
 			/* SILENT: the statement defines the role of embedded user-info for ksi schemes only */
 			if (c->u) { e->user2 = UI_USER[c->u]; e->key2 = UI_KEY[c->u]; }
@@ -638,6 +643,24 @@ static void run(void) {
 		vf_case_end(1);
 	}
 	g_prior = 0;
+	/* (4) only one of the two explicit credentials is given: it takes precedence over its embedded counterpart, the other one
+	 * comes from the URI (every scheme spelling, with embedded credentials, every service) */
+	memset(&c, 0, sizeof c);
+	for (c.b = 0; c.b < NSCH; c.b++)
+	for (c.u = 1; c.u < 3; c.u++)
+	for (c.p = 0; c.p < 4; c.p += 2)
+	for (c.x = 2; c.x < 4; c.x++)
+	for (c.v = 0; c.v < NSV; c.v++) {
+		int crashed;
+		c.mask = 0; c.h = 0; c.a = 2; c.q = 0; c.f = 0;
+		if (!vf_case_begin("mixed:s%d:u%d:p%d:x%d:v%d", c.b, c.u, c.p, c.x, c.v)) continue;
+		compose(&c);
+		reset_seam();
+		run_guarded(exec_service, &c, &crashed);
+		evaluate(&c, crashed);
+		vf_outcome("mixed-credentials:done");
+		vf_case_end(1);
+	}
 	reset_seam();
 	vb_free(&O.body);
 }
